@@ -227,6 +227,8 @@ func didRules(p *Prog, r *Report, clause string, want func(string) bool) *didMod
 	sort.Strings(names)
 	r.Floor("did-handlers", len(names), 3)
 	var proofFns = map[*ssa.Function]bool{}
+	nWriting := 0
+	defer func() { r.Floor("did-handlers-recognised-as-writing", nWriting, 3) }()
 	for _, msgName := range names {
 		fn := m.handlers[msgName]
 		hn := FuncName(fn)
@@ -244,6 +246,7 @@ func didRules(p *Prog, r *Report, clause string, want func(string) bool) *didMod
 			r.Note("%s writes nothing to the DID store", hn)
 			continue
 		}
+		nWriting++
 		if len(sets) > 1 {
 			r.Undecided(kp("SCHEMA", hn), "a DID handler writes exactly one entry", p.FnPos(fn), fmt.Sprintf("%d writes in one handler", len(sets)))
 			continue
